@@ -4,6 +4,7 @@ evaluated (under the parent job) before use.  Model: lean/RedunModel/Model/Optio
 import enum
 import json
 import logging
+import pickle
 
 from core import hx
 
@@ -39,6 +40,8 @@ THEOREMS = [
     "RedunModel.C27.jobInfo_wf",
     "RedunModel.C27.constructed_calls_wf",
     "RedunModel.C27.export_options_accumulates",
+    "RedunModel.C27.roundtrip_preserves_exports",
+    "RedunModel.C27.roundtrip_preserves_options",
     "RedunModel.C27.options_drops_exports_note",
     "RedunModel.C27.def_export_cache_note",
     "RedunModel.C27.run_evaluates_options_refuted",
@@ -72,10 +75,13 @@ ASSUMPTIONS = [
 RULE = ("two streams from one PRNG. (1) Task construction: @task(**opts, export_options=..) followed by 0-4 .options()/"
         ".export_options() calls, incl. the synonyms cache/cache_scope/check_valid with invalid and expression values; "
         "base/override dicts, exported names or the raised error type vs the model. (2) job trees (depth <= 4, <= 3 children, "
-        "with_export_options nodes, 8 option keys, expression-valued options, prov=False subtrees, cache=False runs) run on the "
+        "with_export_options nodes, calls made through task VALUES that went through pickle.loads(pickle.dumps(..)) between / after "
+        "their .options()/.export_options() calls, 8 option keys, expression-valued options, prov=False subtrees, cache=False runs) run on the "
         "real Scheduler with a controlled executor that records job.get_options(), job.export_options, job.get_raw_options(), "
         "the parent and the executor for every submitted job; each record vs the model's walk of the same tree and vs the "
-        "documented precedence computed from the generator's spec and the parent's observed record. distinct = distinct "
+        "documented precedence computed from the generator's spec and the parent's observed record. (3) end to end: a cacheable task "
+        "returns a configured task value, a later execution on the same backend (cache hit: the value is deserialized) calls it; the "
+        "jobs of both executions vs the documented precedence and vs each other. distinct = distinct "
         "(options, exports, raw) records resp. constructions; non-trivial = a job below the root or with a key defined in >= 2 "
         "layers, a construction with >= 1 call")
 
@@ -90,7 +96,8 @@ LEVEL_TEXT = ("Proved in Lean for every parent job, call, key, run mode and ever
               "override cache_scope under cache=False nor prov/cache_scope under a non-recording ancestor); options_evaluated, "
               "inherited_not_reevaluated, option_jobs_under_parent; well-formedness preservation (evalOptions_wf, jobInfo_wf, "
               "constructed_calls_wf) so the unique-keys hypotheses are met by anything built from dicts; task API: "
-              "export_options_accumulates, remarks options_drops_exports_note, def_export_cache_note. REFUTED on the current code: "
+              "export_options_accumulates, roundtrip_preserves_exports / roundtrip_preserves_options (a pickle or cache round trip of a task "
+              "value keeps exported names and call-time options; re-validation is idempotent), remarks options_drops_exports_note, def_export_cache_note. REFUTED on the current code: "
               "run_evaluates_options_refuted (a ROOT call with an expression-valued option dies with KeyError in record_job_start; "
               "finding C27-root-option-expression-crash), with run_evaluates_options_partial (runs whose root call has no "
               "expression-valued option) and run_crash_iff (exact condition). Tie: Task construction and generated job trees on the "
@@ -292,6 +299,8 @@ def ref_layers(node):
     allowed = set(node["defx"].keys()) | {"cache_scope", "prov"}
     after_last_options = set()
     for kind, upd in node["ops"]:
+        if kind == "R":
+            continue        # a pickle round trip of the task value preserves call-time options and exported names
         call.update(upd)
         call = ref_norm(call)
         allowed |= set(upd.keys())
@@ -413,7 +422,13 @@ class Gen:
             kinds = ["O"] * (n - n_x) + ["X"] * n_x      # exports last
         else:
             kinds = [rng.choice("OX") for _ in range(n)]
-        return [[k, self.odict(1, 2, api=api)] for k in kinds]
+        ops = [[k, self.odict(1, 2, api=api)] for k in kinds]
+        r = rng.random()
+        if r < 0.3:
+            ops.append(["R", {}])                                   # configured task value pickled, then called
+        elif r < 0.4:
+            ops.insert(rng.randrange(len(ops) + 1), ["R", {}])      # ... or configured further after the round trip
+        return ops
 
     def node(self, depth, budget):
         rng = self.rng
@@ -436,8 +451,7 @@ def tree_wire(node):
     if node["kind"] == "wx":
         call = "(W %s)" % dict_wire(node["opts"])
     else:
-        call = "(J (K %s %s) (%s))" % (dict_wire(node["def"]), dict_wire(node["defx"]),
-                                       " ".join("(%s %s)" % (k, dict_wire(d)) for k, d in node["ops"]))
+        call = "(J (K %s %s) (%s))" % (dict_wire(node["def"]), dict_wire(node["defx"]), ops_wire(node["ops"]))
     return "(T s%s %s (%s))" % (hx(node["id"]), call, " ".join(tree_wire(c) for c in node["children"]))
 
 
@@ -495,9 +509,18 @@ def define_task(index, node):
 
 
 def apply_ops(t, ops):
+    """O: .options(**d); X: .export_options(**d); R: the task VALUE goes through pickle (Task.__getstate__/__setstate__,
+    what a cache hit / a remote executor does to a task returned or passed as a value)"""
     for kind, upd in ops:
-        t = t.options(**build_dict(upd)) if kind == "O" else t.export_options(**build_dict(upd))
+        if kind == "R":
+            t = pickle.loads(pickle.dumps(t))
+        else:
+            t = t.options(**build_dict(upd)) if kind == "O" else t.export_options(**build_dict(upd))
     return t
+
+
+def ops_wire(ops):
+    return " ".join("(R)" if k == "R" else "(%s %s)" % (k, dict_wire(d)) for k, d in ops)
 
 
 def build_expr(node):
@@ -615,6 +638,15 @@ def corpus_trees():
     out.append((True, n("c6-r", {"x": lit(0)}, defx={"cache": lit(False), "memory": lit(3)}, children=[n("c6-a", children=[n("c6-b")])])))
     # a parent that exports cache_scope while provenance is off hands NONE down
     out.append((True, n("c7-r", ops=[["O", {"prov": lit(False)}], ["X", {"cache": lit(True)}]], children=[n("c7-a", {"cache": lit(True)})])))
+    # task VALUES that went through pickle before the call: exported names and call-time options must survive; the children
+    # define the same keys themselves (definition < exported), grandchildren inherit through
+    out.append((True, n("c12-r", children=[
+        n("c12-a", {"x": lit("def")}, ops=[["X", {"x": lit("exp"), "memory": lit(7)}], ["R", {}]], children=[
+            n("c12-b", {"x": lit("child-def"), "memory": lit(1)}, children=[n("c12-c", {"x": lit("grandchild-def")})])]),
+        n("c12-d", ops=[["O", {"y": lit(1)}], ["X", {"vcpus": lit(2)}], ["R", {}], ["X", {"x": lit(3)}], ["R", {}], ["R", {}]], children=[n("c12-e", {"vcpus": lit(0), "x": lit(0)})]),
+        n("c12-f", {"memory": lit(1)}, defx={"y": lit("defx")}, ops=[["X", {"cache": lit(False)}], ["R", {}]], children=[n("c12-g", {"cache": lit(True), "y": lit(0)})]),
+        n("c12-h", ops=[["X", {"prov": lit(False), "x": call_spec("c12-e1", lit(5))}], ["R", {}]], children=[n("c12-i", {"x": lit(0)}, ops=[["O", {"prov": lit(True)}], ["R", {}]])]),
+    ])))
     # an overridden expression-valued option is never evaluated
     out.append((True, n("c8-r", children=[n("c8-a", {"memory": call_spec("c8-e1", lit(1))}, ops=[["O", {"memory": lit(2)}]]),
                                            n("c8-b", ops=[["X", {"memory": lit(3)}]], children=[n("c8-c", {"memory": call_spec("c8-e2", lit(1))})])])))
@@ -636,6 +668,9 @@ def corpus_tasks():
         ({"prov": lit(True)}, {}, [["O", {"x": lit(1)}]]), ({}, {"prov": lit(False)}, [["O", {"x": lit(1)}]]),
         ({}, {}, [["O", {"cache_scope": enum_spec("CacheCheckValid", "full")}]]),
         ({"cache_scope": lit("CSE")}, {}, [["O", {"cache_scope": lit(True)}]]),
+        ({"memory": lit(1)}, {}, [["X", {"a": lit(1)}], ["R", {}]]), ({}, {"d": lit(1)}, [["X", {"cache": lit(0)}], ["R", {}], ["X", {"b": lit(2)}], ["R", {}]]),
+        ({"prov": lit(True)}, {}, [["R", {}]]), ({}, {}, [["O", {"prov": lit(0)}], ["R", {}], ["O", {"x": lit(1)}], ["R", {}]]),
+        ({"x": lit(1)}, {}, [["X", {"x": call_spec("t-e3", lit(2))}], ["R", {}]]),
     ]
 
 
@@ -678,7 +713,7 @@ def stream_tasks(ctx):
         dfn = gen.odict(0, 3, p_special=0.4, api=True)
         defx = gen.odict(1, 2, p_special=0.4, api=True) if ctx.rng.random() < 0.25 else {}
         cases.append((dfn, defx, gen.ops(api=True)))
-    reqs = ["task (K %s %s) (%s)" % (dict_wire(d), dict_wire(x), " ".join("(%s %s)" % (k, dict_wire(u)) for k, u in ops)) for d, x, ops in cases]
+    reqs = ["task (K %s %s) (%s)" % (dict_wire(d), dict_wire(x), ops_wire(ops)) for d, x, ops in cases]
     replies = ctx.model("C27", reqs)
     for (dfn, defx, ops), reply in zip(cases, replies):
         impl = real_task_result(dfn, defx, ops)
@@ -692,6 +727,39 @@ def stream_tasks(ctx):
         if impl != model:
             ctx.mismatch("Task construction (@task / .options / .export_options) differs from model mkTask/applyOps", case=case,
                          model=repr(model)[:600], impl=repr(impl)[:600])
+
+
+def oracle_job(ctx, case, ident, r, node, prec, use_cache):
+    """the property on one real record: r = what the executor saw, node = the generator's spec of the call (None for an
+    option-value job), prec = the record of the parent job"""
+    if r["has_expr"] or any(w.startswith("?") or "(C " in w for _, w in r["opts"]):
+        ctx.violation("C27-expression-in-options", "an unevaluated expression reached the executor in job.get_options()", case=dict(case, job=ident),
+                      expected="evaluated values", actual=r["opts"], kind="program")
+    node_for_ref = node if (node is not None) else {"kind": "task", "def": {}, "defx": {}, "ops": []}
+    want = sorted(ref_options(node_for_ref, prec, use_cache).items())
+    if want != r["opts"]:
+        got = dict(r["opts"])
+        forced_keys = [k for k, w in want if k in ("cache_scope", "prov") and got.get(k) != w]
+        sig = "C27-forced-overridden" if forced_keys and all(got.get(k) == w for k, w in want if k not in ("cache_scope", "prov")) and set(got) == set(dict(want)) \
+            else "C27-precedence-wrong"
+        ctx.violation(sig, "job.get_options() is not definition options < parent's exported options < call-time options < scheduler-imposed "
+                           "(cache_scope=CSE without cache, prov=False under a non-recording parent, cache_scope=NONE without provenance)",
+                      case=dict(case, job=ident, parent_options=prec["opts"] if prec else None, parent_exports=prec["exports"] if prec else None),
+                      expected=want, actual=r["opts"], kind="program")
+    dem = set(ref_layers(node)[2]) if (node is not None) else set()
+    alw = set(ref_layers(node)[3]) if (node is not None) else set()
+    pex = set(prec["exports"]) if prec else set()
+    if not (dem | pex) <= set(r["exports"]):
+        ctx.violation("C27-exports-not-accumulated", "job.export_options lacks a name exported by the call, the definition or an ancestor",
+                      case=dict(case, job=ident), expected=sorted(dem | pex), actual=r["exports"], kind="program")
+    if not set(r["exports"]) <= (alw | pex):
+        ctx.violation("C27-exports-spurious", "job.export_options has a name that neither the call, the definition nor an ancestor exported",
+                      case=dict(case, job=ident), expected="subset of %r" % sorted(alw | pex), actual=r["exports"], kind="program")
+    ex_opt = dict(r["opts"]).get("executor", "N")
+    want_exec = "default" if ex_opt in FALSY_WIRES else un_s(ex_opt) if ex_opt.startswith("s") else ex_opt
+    if r["executor"] != want_exec:
+        ctx.violation("C27-executor-not-from-job-options", "the job was submitted to another executor than its options name",
+                      case=dict(case, job=ident), expected=want_exec, actual=r["executor"], kind="program")
 
 
 def check_tree(ctx, sched, tree, use_cache, reply, source):
@@ -769,34 +837,7 @@ def check_tree(ctx, sched, tree, use_cache, reply, source):
             if m[field] != r[field]:
                 ctx.mismatch("%s differs from the model (%s job)" % (what, m["kind"]), case=dict(case, job=ident), model=m[field], impl=r[field])
         # ---- the property on the real records
-        if r["has_expr"] or any(w.startswith("?") or "(C " in w for _, w in r["opts"]):
-            ctx.violation("C27-expression-in-options", "an unevaluated expression reached the executor in job.get_options()", case=dict(case, job=ident),
-                          expected="evaluated values", actual=r["opts"], kind="program")
-        node_for_ref = node if is_main else {"kind": "task", "def": {}, "defx": {}, "ops": []}
-        want = sorted(ref_options(node_for_ref, prec, use_cache).items())
-        if want != r["opts"]:
-            got = dict(r["opts"])
-            forced_keys = [k for k, w in want if k in ("cache_scope", "prov") and got.get(k) != w]
-            sig = "C27-forced-overridden" if forced_keys and all(got.get(k) == w for k, w in want if k not in ("cache_scope", "prov")) and set(got) == set(dict(want)) \
-                else "C27-precedence-wrong"
-            ctx.violation(sig, "job.get_options() is not definition options < parent's exported options < call-time options < scheduler-imposed "
-                               "(cache_scope=CSE without cache, prov=False under a non-recording parent, cache_scope=NONE without provenance)",
-                          case=dict(case, job=ident, parent_options=prec["opts"] if prec else None, parent_exports=prec["exports"] if prec else None),
-                          expected=want, actual=r["opts"], kind="program")
-        dem = set(ref_layers(node)[2]) if is_main else set()
-        alw = set(ref_layers(node)[3]) if is_main else set()
-        pex = set(prec["exports"]) if prec else set()
-        if not (dem | pex) <= set(r["exports"]):
-            ctx.violation("C27-exports-not-accumulated", "job.export_options lacks a name exported by the call, the definition or an ancestor",
-                          case=dict(case, job=ident), expected=sorted(dem | pex), actual=r["exports"], kind="program")
-        if not set(r["exports"]) <= (alw | pex):
-            ctx.violation("C27-exports-spurious", "job.export_options has a name that neither the call, the definition nor an ancestor exported",
-                          case=dict(case, job=ident), expected="subset of %r" % sorted(alw | pex), actual=r["exports"], kind="program")
-        ex_opt = dict(r["opts"]).get("executor", "N")
-        want_exec = "default" if ex_opt in FALSY_WIRES else un_s(ex_opt) if ex_opt.startswith("s") else ex_opt
-        if r["executor"] != want_exec:
-            ctx.violation("C27-executor-not-from-job-options", "the job was submitted to another executor than its options name",
-                          case=dict(case, job=ident), expected=want_exec, actual=r["executor"], kind="program")
+        oracle_job(ctx, case, ident, r, node if is_main else None, prec, use_cache)
     return True
 
 
@@ -832,17 +873,115 @@ def stream_trees(ctx, only=None):
         log.setLevel(old)
 
 
+# ------------------------------------------------------------------ end to end: a configured Task VALUE served from the cache
+_E2E = {}
+
+
+def e2e_tasks():
+    """main(i) -> apply(i, choose(i, flavour)) ; choose (cacheable) RETURNS the configured task `mid`; apply (cache=False)
+    calls it; mid -> reader.  In a second execution on the same backend choose is a cache hit, so the task value that
+    apply calls was deserialized from the backend."""
+    if _E2E:
+        return _E2E
+    from redun import task
+
+    @task(namespace=NS, name="e2e_reader", version="1", cache=False, x="reader-def", memory=1)
+    def reader(ident):
+        return ident
+
+    @task(namespace=NS, name="e2e_mid", version="1", cache=False, x="mid-def")
+    def mid(ident):
+        return [reader(ident + "/r")]
+
+    @task(namespace=NS, name="e2e_choose", version="1")
+    def choose(ident, flavour):
+        return apply_ops(mid, _E2E["ops"][flavour])
+
+    @task(namespace=NS, name="e2e_apply", version="1", cache=False)
+    def apply(ident, step):
+        return step(ident + "/m")
+
+    @task(namespace=NS, name="e2e_main", version="1", cache=False)
+    def main(ident, flavour):
+        return apply(ident + "/a", choose("choose-" + flavour, flavour))
+
+    _E2E.update(reader=reader, mid=mid, choose=choose, apply=apply, main=main, ops={})
+    return _E2E
+
+
+def stream_e2e(ctx):
+    from ctl_sched import make_scheduler
+    T = e2e_tasks()
+    rng = ctx.rng
+    gen = Gen(rng, "e%d-" % ctx.seed)
+    chains = [[["X", {"x": lit("exp")}]], [["O", {"y": lit(1)}], ["X", {"x": lit("exp"), "memory": lit(9)}]],
+              [["X", {"cache": lit(False)}], ["X", {"x": lit("exp2")}]], [["X", {"prov": lit(False)}]], [["X", {"x": lit(1)}], ["O", {"y": lit(2)}]]]
+    for _ in range(ctx.n(6, 60)):
+        ops = [[k, strip_calls(u)] for k, u in gen.ops() if k != "R"]
+        chains.append(ops or [["X", {"x": lit("g")}]])
+    log = logging.getLogger("redun")
+    old = log.level
+    log.setLevel(logging.CRITICAL)
+    try:
+        sched = make_scheduler(None, extra_executors=("alt",))
+        for ci, ops in enumerate(chains):
+            flavour = "f%d-%d" % (ctx.seed, ci)
+            T["ops"][flavour] = ops
+            nodes = {"m": {"kind": "task", "def": {"cache": lit(False), "x": lit("mid-def")}, "defx": {}, "ops": ops},
+                     "r": {"kind": "task", "def": {"cache": lit(False), "x": lit("reader-def"), "memory": lit(1)}, "defx": {}, "ops": []},
+                     "a": {"kind": "task", "def": {"cache": lit(False)}, "defx": {}, "ops": []}}
+            case = {"e2e": "cached task returns mid" + "".join(".%s(%s)" % ("options" if k == "O" else "export_options", json.dumps(u)) for k, u in ops)
+                    + "; a later execution calls it", "ops": ops}
+            recs = []
+            for execution in (1, 2):
+                ident = "%s-x%d" % (flavour, execution)
+                recorder = Recorder()
+                ctl = make_ctl(rng, recorder)
+                status = ctl.run(sched, T["main"](ident, flavour))
+                if status[0] != "ok" or recorder.errors:
+                    ctx.violation("C27-workflow-raises", "the task-value workflow did not finish", case=dict(case, execution=execution), expected="a result",
+                                  actual=repr((status, recorder.errors))[:300], kind="program")
+                    sched = make_scheduler(None, extra_executors=("alt",))
+                    break
+                rec = recorder.rec
+                served_from_cache = ("choose-" + flavour) not in rec
+                if (execution == 2) != served_from_cache:
+                    ctx.note("e2e: choose was %s in execution %d for %s" % ("cached" if served_from_cache else "run", execution, json.dumps(ops)[:200]))
+                by = {"a": rec.get(ident + "/a"), "m": rec.get(ident + "/a/m"), "r": rec.get(ident + "/a/m/r")}
+                if None in by.values():
+                    ctx.mismatch("task-value workflow: a job did not reach the executor", case=dict(case, execution=execution), model=sorted(by), impl=sorted(rec))
+                    break
+                for name, par in (("a", None), ("m", "a"), ("r", "m")):
+                    r = by[name]
+                    prec = by[par] if par else rec.get(r["parent"])
+                    ctx.case(key=("e2e", repr(ops), execution, name) if name != "a" else None, stream="task-value-from-cache", execution=execution,
+                             job=name, choose_cached=served_from_cache,
+                             sample=take_sample("e2e", 1, execution == 2 and name == "r", {"workflow": case["e2e"][:300], "execution": execution,
+                                                                                          "reader_options": [[k, w] for k, w in r["opts"]],
+                                                                                          "mid_exports": by["m"]["exports"]}))
+                    oracle_job(ctx, dict(case, execution=execution, choose_cached=served_from_cache), name, r, nodes[name], prec, True)
+                recs.append({k: (v["opts"], v["exports"]) for k, v in by.items()})
+            if len(recs) == 2 and recs[0] != recs[1]:
+                ctx.violation("C27-task-value-from-cache-differs", "jobs of a task value served from the cache run with other options / exported names than "
+                              "in the execution that computed the value", case=case, expected=recs[0], actual=recs[1], kind="program")
+    finally:
+        log.setLevel(old)
+
+
 def run(ctx):
     tasks()
     stream_tasks(ctx)
     stream_trees(ctx)
+    stream_e2e(ctx)
 
 
 def replay(ctx, case):
     c = case.get("case") or {}
     print("replay case:", json.dumps(c, default=repr)[:3000])
     tasks()
-    if isinstance(c, dict) and "tree" in c:
+    if isinstance(c, dict) and "e2e" in c:
+        stream_e2e(ctx)
+    elif isinstance(c, dict) and "tree" in c:
         stream_trees(ctx, only=[(bool(c.get("use_cache", True)), c["tree"], "replay")])
     elif isinstance(c, dict) and "ops" in c:
         run(ctx)
